@@ -1,6 +1,7 @@
 package govc
 
 import (
+	"sort"
 	"fmt"
 	"go/token"
 	"go/types"
@@ -604,6 +605,16 @@ func (u *Unit) doReturn(s *State, f *Frame, rv []Value, in ssa.Instruction) {
 	}
 	u.RetCount++
 	fk := fnKey(u.Fn)
+	if u.C != nil && len(u.C.RetWhen) > 0 {
+		ord := u.returnOrdinal(in)
+		env := u.specEnv(s, f)
+		for i, rw := range u.C.RetWhen {
+			if rw.Name == fmt.Sprint(ord) {
+				name := fmt.Sprintf("%s#ret.%d.%d", shortKey(fk), ord, i+1)
+				u.oblige(s, name, "ret", in.Pos(), fmt.Sprintf("return %d is taken only when: %s", ord, rw.Text), u.evalBool(env, rw.E))
+			}
+		}
+	}
 	if u.C != nil {
 		env := u.specEnv(s, nil)
 		bindResults(env.names, u.Fn, u.C, rv)
@@ -920,4 +931,29 @@ func (u *Unit) havocPerModifies(s *State, env *SpecEnv, c *Contract, eff *effect
 		}
 		s.Heaps[k] = nh
 	}
+}
+
+// returnOrdinal: 1-based position of a return statement among the function's returns, in source order.
+func (u *Unit) returnOrdinal(in ssa.Instruction) int {
+	var rets []ssa.Instruction
+	for _, b := range u.Fn.Blocks {
+		for _, x := range b.Instrs {
+			if _, ok := x.(*ssa.Return); ok {
+				rets = append(rets, x)
+			}
+		}
+	}
+	key := func(x ssa.Instruction) int {
+		if !x.Pos().IsValid() {
+			return 1 << 40 // the implicit return at the end of a function without results comes last
+		}
+		return int(x.Pos())
+	}
+	sort.SliceStable(rets, func(i, j int) bool { return key(rets[i]) < key(rets[j]) })
+	for i, r := range rets {
+		if r == in {
+			return i + 1
+		}
+	}
+	return 0
 }
